@@ -31,6 +31,8 @@ CONSTANTS
     UnlockEarly,    \* TRUE: keys are unlocked before the store
     BusyDropsMap,   \* TRUE: a request that meets a busy key inside its PreLock section lets go of the locker-wide mutex while it waits
                     \* for the key and takes it again afterwards ("do not sit on the global mutex")
+    AbandonReleasesLocks, \* TRUE: when a request's caller goes away (its context ends) while the rules run, the ruler returns at once - its
+                    \* deferred unlocks run - while the rule evaluation it started carries on with the fetched record
     StoreMode       \* "atomic" (shipped: one committed transaction replaces the record) | "deleteThenSet" (the old record is
                     \* removed in one committed transaction and the new one written in a second)
 
@@ -268,6 +270,18 @@ StoreDone(r) ==
     /\ Goto(r, IF UnlockEarly THEN "sign" ELSE "unlock")
     /\ UNCHANGED <<def, disk, mapLock, holder, loc, res, nxt, sigs, released, order, faulted, crashes, faults, closed>>
 
+(* ---- the caller goes away while the rules run (context cancelled / deadline).  Shipped: nothing happens to the request - it carries on *)
+(* under its locks and its answer goes nowhere.  Design mutant AbandonReleasesLocks: the locks are let go now, the evaluation carries on.  *)
+Abandon(r) ==
+    /\ pc[r] \in {"fetch", "check", "store"} /\ CanFault /\ <<r, -1>> \notin faulted
+    /\ faults' = faults + 1
+    /\ faulted' = faulted \cup {<<r, -1>>}
+    /\ IF AbandonReleasesLocks
+         THEN /\ holder' = [k \in Keys |-> IF holder[k] = r THEN None ELSE holder[k]]
+              /\ mapLock' = IF mapLock = r THEN None ELSE mapLock
+         ELSE UNCHANGED <<holder, mapLock>>
+    /\ UNCHANGED <<def, disk, pc, idx, loc, res, nxt, sigs, released, order, crashes, closed>>
+
 (* ---- deferred unlocks when RunRules returns ---- *)
 Unlock(r) ==
     /\ pc[r] \in {"unlock", "unlockE"}
@@ -336,7 +350,7 @@ CloseStore ==
     /\ UNCHANGED <<def, disk, mapLock, holder, pc, idx, loc, res, nxt, sigs, released, order, faulted, crashes, faults>>
 
 Step(r) == \/ Choose(r) \/ Invoke(r) \/ PreCheckFail(r) \/ Validate(r) \/ PreLock(r) \/ LockNext(r) \/ LockYield(r) \/ LockWaitAcq(r) \/ ReLock(r) \/ PostLock(r)
-           \/ Fetch(r) \/ FetchFail(r) \/ FetchClosed(r) \/ Check(r) \/ Store(r) \/ StoreDel(r) \/ StoreSet(r) \/ StoreFail(r) \/ StoreClosed(r) \/ StoreDone(r)
+           \/ Fetch(r) \/ FetchFail(r) \/ FetchClosed(r) \/ Check(r) \/ Abandon(r) \/ Store(r) \/ StoreDel(r) \/ StoreSet(r) \/ StoreFail(r) \/ StoreClosed(r) \/ StoreDone(r)
            \/ Unlock(r) \/ Sign(r) \/ SignFail(r) \/ Reply(r) \/ EarlySign(r)
 
 AllEnded == \A r \in Reqs : pc[r] \in {"done", "dead"}
